@@ -394,6 +394,27 @@ class Lowering:
 
     def enum_cname(self, en):
         c = self.sanitize(self.tu.qual[en['id']])
+        if not en.get('name'):
+            # unnamed enums of different headers must not share one C name: the enumerator prefix stays (callers
+            # spell `<prefix>__NAME`), the type gets a suffix per distinct enum
+            key = '%s#%s' % (c, en['id'])
+            self.anon_enum_ids = getattr(self, 'anon_enum_ids', {})
+            if key not in self.anon_enum_ids:
+                self.anon_enum_ids[key] = len(self.anon_enum_ids)
+            tag = '%s_e%d' % (c, self.anon_enum_ids[key])
+            if tag not in self.enums:
+                lines, val = [], -1
+                for k in kids(en):
+                    if k.get('kind') != 'EnumConstantDecl':
+                        continue
+                    v = None
+                    for kk in kids(k):
+                        v = self.const_value(kk)
+                    val = v if v is not None else val + 1
+                    lines.append('  %s__%s = %d,' % (tag, k['name'], val))
+                self.enums[tag] = 'typedef enum %s {\n%s\n} %s;' % (tag, '\n'.join(lines), tag)
+                self.enum_order.append(tag)
+            return tag
         if c not in self.enums:
             lines = []
             val = -1
